@@ -95,6 +95,42 @@ def jbtree(t) -> Any:
     return {"td": str(td), "leaves": [[jleaf(np.asarray(x)[k]) for k in range(np.asarray(x).shape[0])] for x in leaves]}
 
 
+def jval(x) -> Any:
+    a = np.asarray(x)
+    return {"shape": list(a.shape), "v": a.astype(np.float64).tolist()}
+
+
+def jttree(t) -> Any:
+    """typed batched tree: each leaf = its dtype and the list of its slices along axis 0"""
+    import jax
+
+    leaves, td = jax.tree_util.tree_flatten(t)
+    return {"td": str(td), "leaves": [{"dtype": str(np.asarray(x).dtype), "slices": [jval(np.asarray(x)[k]) for k in range(np.asarray(x).shape[0])]} for x in leaves]}
+
+
+def jtelem(t) -> Any:
+    import jax
+
+    leaves, td = jax.tree_util.tree_flatten(t)
+    return {"td": str(td), "leaves": [{"dtype": str(np.asarray(x).dtype), "val": jval(x)} for x in leaves]}
+
+
+def other_dtype_element(rng, like):
+    """an element with the structure and shapes of `like` whose leaves have ANOTHER dtype than the batch's, with values for which
+    the cast of `array.at[i].set(value)` is unambiguous: fractional floats into integer arrays (truncation), small non-negative
+    integers everywhere else (exact), 0/1/2 into bool arrays (non-zero)"""
+    import jax
+
+    def conv(x):
+        a = np.asarray(x)
+        if a.dtype.kind in "iu":   # fractional float32 values in [0, 8): truncated toward zero by the cast
+            return (rng.integers(0, 32, size=a.shape) / 4.0).astype(np.float32)
+        if a.dtype == bool:
+            return rng.integers(0, 3, size=a.shape).astype(np.int32)
+        return rng.integers(0, 9, size=a.shape).astype(np.int32 if rng.random() < 0.5 else np.uint8)   # into float16/32: exact
+    return jax.tree_util.tree_map(conv, like)
+
+
 def real_state_trees(rng, n):
     """real environment states (chex dataclasses) for several keys"""
     import jax
@@ -151,9 +187,28 @@ def run(ctx: Ctx, extended: bool = False) -> None:
             ctx.nontrivial.add(("ts", case["treedef"], b, i))
         # set element i to a fresh element e
         e = jax.tree_util.tree_map(lambda x: (np.asarray(x) * 0 + 1).astype(np.asarray(x).dtype), ts[0])
-        for i in list(range(b)) + [-1]:
+        for i in list(range(b)) + [-1, -b]:
             ctx.evaluations += 1
             new = tree_utils.tree_add_element(stacked, i, e)
+            # the dtype-aware model (element cast to the dtype of the batch), on the same-dtype element and on an element of other dtypes
+            import warnings
+
+            for label, el in (("same_dtype", e), ("other_dtype", other_dtype_element(rng, ts[0]))):
+                with warnings.catch_warnings():
+                    warnings.simplefilter("ignore")
+                    newt = new if label == "same_dtype" else tree_utils.tree_add_element(stacked, i, el)
+                mt = drv.call("pytree.add_element_typed", tree=jttree(stacked), i=i, element=jtelem(el))
+                caset = {"batch": b, "i": i, "op": "add_element_typed", "element": label, "treedef": str(jax.tree_util.tree_structure(el))[:200]}
+                ctx.evaluations += 1
+                ctx.count(f"add_element_{label}")
+                if mt["tree"] != jttree(newt):
+                    ctx.disagree("tree_utils", f"typed model of tree_add_element != implementation ({label} element)", caset)
+                elif mt["slice"] != jtelem(tree_utils.tree_slice(newt, i)):
+                    ctx.disagree("tree_utils", f"typed model: slice of the updated tree at i != implementation ({label} element)", caset)
+                if [str(np.asarray(x).dtype) for x in jax.tree_util.tree_leaves(newt)] != [str(np.asarray(x).dtype) for x in jax.tree_util.tree_leaves(stacked)]:
+                    ctx.fail("tree_utils", "addElement_structure", "tree_add_element changed the dtype of a leaf", caset)
+                if label == "same_dtype" and mt["slice"] != jtelem(el):
+                    ctx.disagree("tree_utils", "slice_addElement_same: the model does not return the element itself for a same-dtype element", caset)
             m = drv.call("pytree.add_element", tree=jbtree(stacked), i=i, element=jtree(e))
             case = {"batch": b, "i": i, "op": "add_element", "treedef": str(jax.tree_util.tree_structure(e))[:200]}
             if m != jbtree(new):
@@ -234,6 +289,21 @@ def run(ctx: Ctx, extended: bool = False) -> None:
         except (ValueError, TypeError):
             raised = None
         m = drv.call("pytree.is_equal", t1=enc(t1), t2=enc(t2))
+        # the two assertion helpers as assertions: returns / AssertionError / structure error — against the model
+        try:
+            pytrees.assert_trees_are_equal(t1, t2)
+            eq_res = "ok"
+        except AssertionError:
+            eq_res = "differ"
+        except (ValueError, TypeError):
+            eq_res = "structure"
+        diff_res = "structure" if raised is None else ("same_values" if raised else "ok")
+        ma = drv.call("pytree.assert", t1=enc(t1), t2=enc(t2))
+        if (eq_res == "structure") != (diff_res == "structure"):
+            ctx.fail("pytrees", "assert_structure_iff", f"the two assertion helpers disagree on the structures (equal: {eq_res}, different: {diff_res})", {"mode": mode})
+        elif eq_res != "structure" and ma["equal"] != "structure" and (ma["equal"], ma["different"]) != (eq_res, diff_res):
+            ctx.fail("pytrees", "assertEqual_iff", f"assert_trees_are_equal: {eq_res}, assert_trees_are_different: {diff_res}; by the leaves: {ma}", {"mode": mode, "t1": str(enc(t1))[:300], "t2": str(enc(t2))[:300]})
+        ctx.count(f"assert_equal_{eq_res}")
         case = {"mode": mode, "t1": str(enc(t1))[:300], "t2": str(enc(t2))[:300], "impl": got, "model": m}
         if not refl:
             ctx.fail("pytrees", "isEqual_refl", "is_equal_pytree(t, t) is False", case)
